@@ -183,50 +183,105 @@ var baseMsg = func() *hsms.DataMessage {
 	return m
 }()
 
+// route is one public way of turning an item into a message (or of handing it to a send
+// entry point that builds one). Try reports whether the route ACCEPTED the item.
+type route struct {
+	Name string
+	Try  func(e secs2.Item) (accepted bool, detail string)
+}
+
+func fakeRoute(name string, call func(fe *hsmstest.FakeEndpoint, e secs2.Item) error) route {
+	return route{"Fake." + name, func(e secs2.Item) (bool, string) {
+		// the in-memory endpoint double of package hsmstest (no connection)
+		fe := hsmstest.NewFakeEndpoint()
+		err := call(fe, e)
+		if n := len(fe.Sent()); n != 0 {
+			return true, fmt.Sprintf("FakeEndpoint.%s recorded %d sent message(s) (returned err=%v)", name, n, err)
+		}
+		if err == nil {
+			return true, "FakeEndpoint." + name + " returned no error"
+		}
+		return false, ""
+	}}
+}
+
+func routes() []route {
+	ctx := context.Background()
+	msgRoute := func(name string, f func(e secs2.Item) (*hsms.DataMessage, error)) route {
+		return route{name, func(e secs2.Item) (bool, string) {
+			m, err := f(e)
+			if err == nil || m != nil {
+				return true, fmt.Sprintf("%s returned msg!=nil:%v err=%v", name, m != nil, err)
+			}
+			return false, ""
+		}}
+	}
+	return []route{
+		msgRoute("NewDataMessage(W=0)", func(e secs2.Item) (*hsms.DataMessage, error) {
+			return hsms.NewDataMessage(1, 1, false, 7, [4]byte{1, 2, 3, 4}, e)
+		}),
+		msgRoute("NewDataMessage(W=1)", func(e secs2.Item) (*hsms.DataMessage, error) {
+			return hsms.NewDataMessage(1, 1, true, 7, [4]byte{1, 2, 3, 4}, e)
+		}),
+		msgRoute("NewDataMessageFromHeader", func(e secs2.Item) (*hsms.DataMessage, error) {
+			return hsms.NewDataMessageFromHeader([10]byte{0, 7, 0x81, 1, 0, 0, 1, 2, 3, 4}, e)
+		}),
+		msgRoute("Derive.WithItem.Build", func(e secs2.Item) (*hsms.DataMessage, error) {
+			return baseMsg.Derive().WithItem(e).Build()
+		}),
+		msgRoute("Derive.With*.Build", func(e secs2.Item) (*hsms.DataMessage, error) {
+			return baseMsg.Derive().WithFunction(3).WithStream(2).WithWaitBit(false).WithItem(e).WithSessionID(1).WithID(5).Build()
+		}),
+		fakeRoute("SendDataMessage", func(fe *hsmstest.FakeEndpoint, e secs2.Item) error {
+			_, err := fe.SendDataMessage(ctx, 1, 1, true, e)
+			return err
+		}),
+		fakeRoute("SendDataMessageAsync", func(fe *hsmstest.FakeEndpoint, e secs2.Item) error {
+			return fe.SendDataMessageAsync(ctx, 1, 1, false, e)
+		}),
+		fakeRoute("SendSECS2Message(secs2.NewMessage)", func(fe *hsmstest.FakeEndpoint, e secs2.Item) error {
+			_, err := fe.SendSECS2Message(ctx, secs2.NewMessage(1, 2, false, e))
+			return err
+		}),
+		fakeRoute("SendSECS2Message(gem.S1F4)", func(fe *hsmstest.FakeEndpoint, e secs2.Item) error {
+			_, err := fe.SendSECS2Message(ctx, gem.S1F4(e))
+			return err
+		}),
+		fakeRoute("ReplyDataMessage", func(fe *hsmstest.FakeEndpoint, e secs2.Item) error {
+			return fe.ReplyDataMessage(ctx, baseMsg, e)
+		}),
+	}
+}
+
+var allRoutes = routes()
+
+// tryRoute runs one route under recover.
+func tryRoute(r route, e secs2.Item) (accepted bool, detail string, panicked any) {
+	defer func() {
+		if p := recover(); p != nil {
+			panicked = p
+		}
+	}()
+	accepted, detail = r.Try(e)
+	return
+}
+
 // refusedEverywhere checks that no public route turns e into a message. It returns a
-// (key, message) pair, "" when every route refuses.
-func refusedEverywhere(e secs2.Item, stage *string) (string, string) {
-	*stage = "hsms.NewDataMessage"
-	for _, w := range []bool{false, true} {
-		m, err := hsms.NewDataMessage(1, 1, w, 7, [4]byte{1, 2, 3, 4}, e)
-		if err == nil || m != nil {
-			return "NewDataMessage", fmt.Sprintf("hsms.NewDataMessage(W=%v) accepted it: msg=%v err=%v", w, m != nil, err)
+// (key, message) pair, "" when every route refuses. A panic inside a route is a violation
+// unless panicOK (see judgeTypedNil); panics counts them.
+func refusedEverywhere(e secs2.Item, panicOK bool) (key, msg string, panics int) {
+	for _, r := range allRoutes {
+		acc, detail, p := tryRoute(r, e)
+		switch {
+		case p != nil && !panicOK:
+			return "panic:" + r.Name, fmt.Sprintf("%s panicked: %v", r.Name, p), panics
+		case p != nil:
+			panics++
+		case acc:
+			return "accepted:" + r.Name, detail, panics
 		}
 	}
-	*stage = "hsms.NewDataMessageFromHeader"
-	if m, err := hsms.NewDataMessageFromHeader([10]byte{0, 7, 0x81, 1, 0, 0, 1, 2, 3, 4}, e); err == nil || m != nil {
-		return "NewDataMessageFromHeader", "hsms.NewDataMessageFromHeader accepted it"
-	}
-	*stage = "Derive().WithItem().Build()"
-	if m, err := baseMsg.Derive().WithItem(e).Build(); err == nil || m != nil {
-		return "Derive.Build", "DataMessage.Derive().WithItem(e).Build() accepted it"
-	}
-	if m, err := baseMsg.Derive().WithFunction(3).WithStream(2).WithWaitBit(false).WithItem(e).WithSessionID(1).WithID(5).Build(); err == nil || m != nil {
-		return "Derive.Build", "DataMessage.Derive()...WithItem(e)...Build() accepted it"
-	}
-	// the in-memory endpoint double of package hsmstest (no connection): every send entry point
-	*stage = "hsmstest.FakeEndpoint send"
-	fe := hsmstest.NewFakeEndpoint()
-	ctx := context.Background()
-	if _, err := fe.SendDataMessage(ctx, 1, 1, true, e); err == nil {
-		return "Fake.SendDataMessage", "FakeEndpoint.SendDataMessage accepted it"
-	}
-	if err := fe.SendDataMessageAsync(ctx, 1, 1, false, e); err == nil {
-		return "Fake.SendDataMessageAsync", "FakeEndpoint.SendDataMessageAsync accepted it"
-	}
-	if _, err := fe.SendSECS2Message(ctx, secs2.NewMessage(1, 1, true, e)); err == nil {
-		return "Fake.SendSECS2Message", "FakeEndpoint.SendSECS2Message(secs2.NewMessage(e)) accepted it"
-	}
-	if _, err := fe.SendSECS2Message(ctx, gem.S1F3(e)); err == nil {
-		return "Fake.SendSECS2Message(gem)", "FakeEndpoint.SendSECS2Message(gem.S1F3(e)) accepted it"
-	}
-	if err := fe.ReplyDataMessage(ctx, baseMsg, e); err == nil {
-		return "Fake.ReplyDataMessage", "FakeEndpoint.ReplyDataMessage accepted it"
-	}
-	if n := len(fe.Sent()); n != 0 {
-		return "Fake.Sent", fmt.Sprintf("FakeEndpoint recorded %d sent messages for refused items", n)
-	}
-	return "", ""
+	return "", "", panics
 }
 
 // judgeErrored runs every Part-B observation on one errored item.
@@ -266,8 +321,9 @@ func judgeErrored(ec erroredCase, clean []secs2.Item) (key, msg string) {
 				}
 			}
 		}
-		if k, m := refusedEverywhere(e, &stage); k != "" {
-			return "accepted:" + k, m
+		stage = "message routes"
+		if k, m, _ := refusedEverywhere(e, false); k != "" {
+			return k, m
 		}
 		return "", ""
 	})
@@ -380,15 +436,30 @@ func typedNils() []typedNil {
 	}
 }
 
-// judgeTypedNil: a typed-nil pointer handed to NewListItem as a child. The list
-// constructor must not yield an item whose use panics: either the child is treated like
-// the documented nil (skipped; the list is clean and usable) or the list is errored and
-// then refused everywhere like any other errored item.
-func judgeTypedNil(tn typedNil, shape int, clean []secs2.Item) (key, msg string) {
-	stage := "secs2.NewListItem"
+// strictTypedNil selects what a typed-nil child (a nil *IntItem etc. inside a non-nil
+// Item interface) handed to NewListItem must do.
+//
+// false (default): the library's documented and test-pinned behaviour is accepted —
+// list.go's childClean comment and secs2/list_test.go TestListItem_TypedNilBuiltinChild say
+// the child is STORED, NewListItem does not panic, and Error() "must still panic" when the
+// walk reaches it. The property's first sentence is about constructors (NewListItem does
+// not panic) and its second is conditional on a non-nil Error(), so the check enforces
+// only what the property does say: the constructor does not panic, and NO route returns a
+// message and NO Equal returns true for such a list (each use refuses, answers false, or
+// panics — nothing reaches the wire). The panics are counted (counter
+// typed_nil_panics_on_use) so the evidence shows them.
+//
+// true: any panic on use is a violation (key typed-nil-child:panic) — what DESIGN.md's C16
+// paragraph had assumed ("typed-nil child: Equal false, refused"). Flip this if the
+// library is hardened (see teeth/C16/optional-hardening-typed-nil-child.diff).
+const strictTypedNil = false
+
+// judgeTypedNil judges one typed-nil child shape. panics = uses that panicked.
+func judgeTypedNil(tn typedNil, shape int, clean []secs2.Item) (key, msg string, panics int) {
 	desc := fmt.Sprintf("typed-nil child %s shape=%d", tn.Name, shape)
-	k, m := guard(&stage, func() (string, string) {
-		var l secs2.Item
+	fail := func(k, m string) (string, string, int) { return "typed-nil-child:" + k, desc + ": " + m, panics }
+	var l secs2.Item
+	if p := catch(func() {
 		switch shape {
 		case 0:
 			l = secs2.NewListItem(tn.Mk())
@@ -397,43 +468,80 @@ func judgeTypedNil(tn typedNil, shape int, clean []secs2.Item) (key, msg string)
 		default:
 			l = secs2.NewListItem(secs2.NewListItem(secs2.U1(7), tn.Mk()))
 		}
-		stage = "ListItem.Error()"
-		err := l.Error()
-		stage = "secs2.Equal"
-		eqSelf := secs2.Equal(l, l)
-		for _, x := range clean {
-			a, b := secs2.Equal(l, x), secs2.Equal(x, l)
-			if err != nil && (a || b) {
-				return "equal-clean", "errored list is Equal to a clean item"
-			}
-		}
-		if err != nil {
-			if eqSelf {
-				return "equal-self", "errored list Equal to itself"
-			}
-			if k, m := refusedEverywhere(l, &stage); k != "" {
-				return "accepted:" + k, m
-			}
-			return "", ""
-		}
-		// treated as a skipped nil child: the list must be fully usable
-		stage = "ToBytes of the list"
-		b := l.ToBytes()
-		d, derr := secs2.Decode(b)
-		if derr != nil || !secs2.Equal(d, l) || !eqSelf {
-			return "unusable", fmt.Sprintf("list reports no error but does not encode to a decodable equal item (% x, %v)", b, derr)
-		}
-		stage = "hsms.NewDataMessage"
-		mm, merr := hsms.NewDataMessage(1, 1, false, 0, [4]byte{}, l)
-		if merr != nil || !bytes.Equal(mm.ToBytes()[14:], b) {
-			return "unusable", "clean list is not accepted as a message body"
-		}
-		return "", ""
-	})
-	if k == "" {
-		return "", ""
+	}); p != nil {
+		return fail("ctor-panic", fmt.Sprintf("secs2.NewListItem panicked: %v", p))
 	}
-	return "typed-nil-child:" + k, desc + ": " + m
+	if l == nil {
+		return fail("nil", "NewListItem returned nil")
+	}
+	var err error
+	errPanic := catch(func() { err = l.Error() })
+	if errPanic != nil {
+		panics++
+		if strictTypedNil {
+			return fail("panic", fmt.Sprintf("ListItem.Error() panicked: %v", errPanic))
+		}
+	}
+	if errPanic == nil && err == nil {
+		// treated like the documented untyped nil (skipped): the list must be fully usable
+		var why string
+		if p := catch(func() {
+			b := l.ToBytes()
+			d, derr := secs2.Decode(b)
+			if derr != nil || !secs2.Equal(d, l) || !secs2.Equal(l, l) {
+				why = fmt.Sprintf("list reports no error but does not encode to a decodable equal item (% x, %v)", b, derr)
+				return
+			}
+			mm, merr := hsms.NewDataMessage(1, 1, false, 0, [4]byte{}, l)
+			if merr != nil || !bytes.Equal(mm.ToBytes()[14:], b) {
+				why = "list reports no error but is not accepted as a message body"
+			}
+		}); p != nil {
+			why = fmt.Sprintf("list reports no error but using it panicked: %v", p)
+		}
+		if why != "" {
+			return fail("unusable", why)
+		}
+		return "", "", panics
+	}
+	// errored, or Error() panics: never equal, never a message
+	eq := func(a, b secs2.Item, what string) (string, bool) {
+		var r bool
+		if p := catch(func() { r = secs2.Equal(a, b) }); p != nil {
+			panics++
+			if strictTypedNil {
+				return fmt.Sprintf("secs2.Equal(%s) panicked: %v", what, p), true
+			}
+			return "", false
+		}
+		if r {
+			return "secs2.Equal(" + what + ") is true", true
+		}
+		return "", false
+	}
+	if m, bad := eq(l, l, "l, l"); bad {
+		return fail("equal", m)
+	}
+	for i, x := range clean {
+		if m, bad := eq(l, x, fmt.Sprintf("l, clean#%d", i)); bad {
+			return fail("equal", m)
+		}
+		if m, bad := eq(x, l, fmt.Sprintf("clean#%d, l", i)); bad {
+			return fail("equal", m)
+		}
+	}
+	k, m, n := refusedEverywhere(l, !strictTypedNil)
+	panics += n
+	if k != "" {
+		return fail(k, m)
+	}
+	return "", "", panics
+}
+
+func catch(f func()) (p any) {
+	defer func() { p = recover() }()
+	f()
+	return nil
 }
 
 // ---- SML construction path ----------------------------------------------------------------
